@@ -16,6 +16,7 @@ mod leafupd;
 mod lockrec;
 mod ovl;
 mod pipeline;
+mod prepsync;
 mod overflow;
 mod stress;
 mod triepos;
@@ -66,6 +67,7 @@ fn main() {
         "alloc-probe" => alloc::run_probe(seed, cases, &mut sink),
         "alloc-lookup" => alloc::run_lookup(seed, cases, &mut sink),
         "wal" => wal::run(seed, cases, &mut sink),
+        "prepsync" => prepsync::run(seed, cases, &mut sink),
         "overlay-index" => ovl::run(seed, cases, &mut sink),
         "bitops" => bitops::run(seed, cases, &mut sink),
         "bitops-node" => bitops::run_nodes(seed, cases, &mut sink),
